@@ -297,6 +297,20 @@ func c06Check(c *ev.Collector, k c06Case) {
 		BailIfStuck(c, g)
 		return
 	}
+	// gRPC-Web trailer blocks in other-than-canonical casing are valid (the
+	// protocol prescribes lower case): the status they carry must be honoured
+	if k.Proto == PGRPCWeb && k.Dev <= 1 && k.Status == 200 {
+		switch k.Body {
+		case "wt-mixed-case", "wt-spellings":
+			if res.Err != nil {
+				viol("case-insensitive-lookup", "status-not-found", "trailer block with grpc-status 0 in non-canonical casing: call failed with %v", res.Err)
+			}
+		case "wt-status-7":
+			if connect.CodeOf(res.Err) != connect.CodePermissionDenied {
+				viol("case-insensitive-lookup", "status-not-found", "trailer block \"grpc-status: 7\" (lower case): call ended with %v, want permission_denied", res.Err)
+			}
+		}
+	}
 	outcome := "success"
 	if res.Err != nil {
 		var ce *connect.Error
